@@ -25,6 +25,7 @@ import ast as pyast
 import collections
 import inspect
 import itertools
+import re
 
 from vk import admits as adm, boot, pt, run as vrun
 
@@ -45,6 +46,8 @@ BOUNDS = {   # signatures: max positional-only, positional-or-keyword, keyword-o
 ACC_TE = "pytype-accepts/CPython-TypeError"
 REJ_OK = "pytype-rejects/CPython-accepts"
 BIND = "binding-differs"
+
+_TRACE_RE = re.compile(r"line (\d+), in current file")
 
 Sig = collections.namedtuple("Sig", "npo npk ndef star ko kw")   # ko: tuple of 0/1 = has default
 
@@ -266,16 +269,26 @@ def check_program(kind, sig, cb, share, only=None):
   src = "\n".join(prelude + ["r%d = %s" % (i, e) for i, e in enumerate(exprs)]) + "\n"
   res = pt.analyze(src, share=share)
   first = len(prelude) + 1
+  is_call = lambda ln: ln is not None and first <= ln < first + len(exprs)
+  body = [n + 1 for n, l in enumerate(prelude) if l.lstrip().startswith(("return ", "self.r = "))]
   by_line = collections.defaultdict(list)
+  cnt = collections.Counter()
   for name, line, msg in res.errors:
-    if line is None or not first <= line < first + len(exprs):
-      raise RuntimeError("pytype error outside the call lines of a well-formed program: %r\n%s" % (
+    if is_call(line):
+      by_line[line - first].append(name)
+    elif line in body:
+      # an error inside the callee (its body cannot fail once CPython has bound the arguments): never an arity
+      # error of the call; attributed to the calling line through pytype's traceback, for the record only
+      cnt["errors-inside-callee-body"] += 1
+      for ln in _TRACE_RE.findall(msg):
+        if is_call(int(ln)):
+          by_line[int(ln) - first].append("in-callee:" + name)
+    else:
+      raise RuntimeError("pytype error outside the callee and the call lines of a well-formed program: %r\n%s" % (
           (name, line, msg), src))
-    by_line[line - first].append(name)
   stub = pt.Stub(res.pyi)
   ns, results = run_cpython(prelude, exprs)
   env = adm.Env(ns)
-  cnt = collections.Counter()
   viol = []
   dflt = set(defaulted(sig))
   for i, ((npos, kws), (ok, val)) in enumerate(zip(calls, results)):
